@@ -143,7 +143,7 @@ func fixedEdge() []*big.Int {
 		big.NewInt(0), big.NewInt(1), big.NewInt(2),
 		new(big.Int).Sub(n, one), bigN(), new(big.Int).Add(n, one),
 		new(big.Int).Mod(new(big.Int).Lsh(n, 1), pow256), // 2n mod 2^256
-		new(big.Int).Lsh(n, 1),                            // 2n
+		new(big.Int).Lsh(n, 1),                           // 2n
 		new(big.Int).Sub(pow256, one),
 		new(big.Int).Sub(n, two),
 		new(big.Int).Sub(pow256, n), // 2^256 - n = -n mod 2^256
